@@ -97,9 +97,16 @@ def needs_quoting(string: str, allow_reserved: bool, allow_num: bool) -> bool:
 
     string = string.lower()
 
+    # Partially reserved keywords (UNION, EXCEPT, INTERSECT) are only
+    # accepted bare as pointer names after `.`, `.<` or `@`; everywhere
+    # else (type, alias, function, module, variable, tuple element names)
+    # they must be quoted, so quote them always.
     is_reserved = (
         string not in {'__type__', '__std__'}
-        and string in keywords.by_type[keywords.RESERVED_KEYWORD]
+        and (
+            string in keywords.by_type[keywords.RESERVED_KEYWORD]
+            or string in keywords.by_type[keywords.PARTIAL_RESERVED_KEYWORD]
+        )
     )
 
     return (
